@@ -4,6 +4,7 @@ Complete enumeration on real module instances through Module.set_raw / getattr /
 Module.get_raw / Controller.pattern_value; the oracle is rvmon.spec's arithmetic.
 """
 import enum
+from io import BytesIO
 
 from .. import spec
 
@@ -660,6 +661,67 @@ def subclassed_ranges(res):
         MODULE_CLASSES.update(originals)
 
 
+def application_module_types(res):
+    """A module type the library does not know, written by an application the way the built-in ones are written: a controller
+    whose range depends on a unit controller (the DEFAULT unit is not the enum's first member, and the fall-back range is not
+    the first unit's range), plain and compact ranges.  Its controllers encode by the same rules."""
+    import enum
+    import rv.api as api
+    from rv import controller as rvc
+    from rv.modules import MODULE_CLASSES, Behavior as B, Module
+    originals = dict(MODULE_CLASSES)
+    try:
+        class Mode(enum.IntEnum):
+            bipolar = 0
+            boost = 1
+            cut = 2
+        ranges = {Mode.bipolar: (-128, 128), Mode.boost: (0, 256), Mode.cut: (0, 64)}
+        ns = {"name": "Tilt", "mtype": "Tilt", "mgroup": "Effect", "flags": 0x51, "default_flags": 0x51, "behaviors": {B.receives_audio, B.sends_audio}, "Mode": Mode,
+              "volume": rvc.Controller((0, 256), 256),
+              "amount": rvc.Controller(rvc.DependentRange("mode", {k: rvc.WarnOnlyRange(*v) for k, v in ranges.items()}, rvc.WarnOnlyRange(0, 256)), 0),
+              "mode": rvc.Controller(Mode, Mode.boost),
+              "shift": rvc.Controller(rvc.CompactRange(-24, 24), 0)}
+        try:
+            Tilt = type("Tilt", (Module,), ns)
+        except Exception as e:
+            res.count("application_module_type_refused")
+            res.hist("application_module_type_refused_why", type(e).__name__)
+            return
+        ctl = Tilt.controllers["amount"]
+        for via_file in (False, True):
+            for mode, (lo, hi) in ranges.items():
+                mod = Tilt()
+                mod.mode = mode
+                if via_file:
+                    try:
+                        mod = api.read_sunvox_file(BytesIO(api.Synth(mod).read())).module
+                    except Exception as e:
+                        res.violation(f"C10:application-type-raises:{workload_exc(e)}", f"application module type: save/load raised {e!r}", {"family": "application-module-type"})
+                        continue
+                    if type(mod) is not Tilt or mod.mode != mode:
+                        res.count("application_module_type_not_reloaded_as_itself")
+                        continue
+                case = {"family": "application-module-type", "unit": mode.name, "via_file": via_file}
+                res.case(("application-module-type", mode.name, via_file))
+                t_ = ctl.instance_value_type(mod)
+                if (t_.min, t_.max) != (lo, hi):
+                    res.violation("C10:unit-range:application-type", f"unit {mode.name} (value {int(mode)}) selects range {t_.min}..{t_.max}, declared {lo}..{hi}", case)
+                    continue
+                for v in range(lo, hi + 1):
+                    res.count("application_module_type_values")
+                    want_raw = v - lo if lo < 0 else v
+                    mod.set_raw("amount", want_raw)
+                    back, raw = mod.amount, mod.get_raw("amount")
+                    if back != v or raw != want_raw:
+                        res.violation("C10:encode:application-type:dependent", f"unit {mode.name}: stored {want_raw} reads {back}, re-encodes to {raw} (value {v}, range {lo}..{hi})", case)
+                        break
+                if (ctl.pattern_value(mod, lo), ctl.pattern_value(mod, hi)) != (0, 0x8000):
+                    res.violation("C10:pattern:application-type:dependent", f"unit {mode.name}: pattern encoding of min/max is {ctl.pattern_value(mod, lo):#x}/{ctl.pattern_value(mod, hi):#x}", case)
+    finally:
+        MODULE_CLASSES.clear()
+        MODULE_CLASSES.update(originals)
+
+
 def workload_exc(e):
     from .. import workload
     return workload.exc_key(e)
@@ -680,6 +742,7 @@ def run_shard(spec_, res):
     if spec_["shard"] == 3:
         sampler_record_histories(res, spec_["tier"])
         subclassed_ranges(res)
+        application_module_types(res)
     for T, cname, unit in spec_["tasks"]:
         check_controller(res, T, cname, unit)
         if spec_["tier"] == "thorough" and T != "Output":
